@@ -67,6 +67,16 @@ fn c05_symbol(k: usize, p: &mut Probes, r: &mut crate::rng::Rng) -> (Value, &'st
         10 => (json!(""), "falsy"),
         11 => (json!([]), "falsy"),
         12 => (json!(null), "falsy"),
+        14 => (json!({"if": [true, "then", "else"], "comment": "x"}), "truthy-corner"),
+        15 => (json!({"and": [0], "or": [1], "log": "LEAK-sym"}), "truthy-corner"),
+        16 => (json!({"var": "name.0"}), "data-truthy"),
+        17 => (json!({"var": "name.-1"}), "data-truthy"),
+        18 => (json!({"var": "list.1"}), "data-falsy"),
+        19 => (json!({"var": ["deep.x.0", 1]}), "data-truthy"),
+        20 => (json!({"var": "blank.0"}), "data-falsy"),
+        21 => (json!({"var": "list.-1.k"}), "data-truthy"),
+        22 => (json!({"/": [1, 0]}), "poison"),
+        23 => (json!({"var": "t", "x": 1}), "truthy-corner"),
         _ => (json!("v"), "truthy"),
     }
 }
@@ -128,12 +138,12 @@ fn c05_list(ctx: &mut Ctx, items: &[(Value, &'static str)], data: &Value) {
 }
 
 fn c05_core(ctx: &mut Ctx) {
-    let data = json!({"t": "yes", "f": 0, "deep": {"x": [1]}});
-    let datas = [data.clone(), json!({"t": [0], "f": ""}), json!({"t": {"a": 1}, "f": null}), Value::Null];
+    let data = json!({"t": "yes", "f": 0, "deep": {"x": [1]}, "name": "bob", "list": [1, 0, {"k": "v"}], "blank": ""});
+    let datas = [data.clone(), json!({"t": [0], "f": "", "name": "é😀", "list": ["a", "", {"k": [0]}], "deep": {"x": "z"}, "blank": ""}), json!({"t": {"a": 1}, "f": null, "name": "x", "list": [[1], [], {"k": 1}], "deep": {"x": [7]}, "blank": ""}), Value::Null];
     let mut p = Probes { n: 0 };
     let mut idx = 0u64;
     // all lists up to length 4 (quick: 3) over a 10-symbol alphabet
-    let alpha: [usize; 10] = [0, 2, 3, 5, 6, 7, 8, 9, 11, 13];
+    let alpha: [usize; 12] = [0, 2, 3, 5, 6, 7, 8, 9, 11, 14, 16, 18];
     let maxlen = if ctx.thorough() { 4 } else { 3 };
     c05_list(ctx, &[], &data);
     let mut lists: Vec<Vec<usize>> = vec![vec![]];
@@ -157,7 +167,7 @@ fn c05_core(ctx: &mut Ctx) {
         }
         lists.extend(next);
     }
-    ctx.exhaustive_parts.push(format!("all operand lists of length 0..{} over a 10-symbol alphabet (falsy / corner-truthy / data / poison / logging probes), each as if, ?:, and, or", maxlen));
+    ctx.exhaustive_parts.push(format!("all operand lists of length 0..{} over a 12-symbol alphabet (falsy / corner-truthy incl. multi-key look-alike literals / data references incl. indices into strings and arrays / poison / logging probes), each as if, ?:, and, or", maxlen));
     // random longer lists and nesting
     let n = ctx.budget(6_000, 900_000);
     for i in 0..n {
@@ -165,13 +175,13 @@ fn c05_core(ctx: &mut Ctx) {
         let mut rr = ctx.rng.clone();
         let mut items: Vec<(Value, &'static str)> = Vec::new();
         for _ in 0..len {
-            let k = ctx.rng.below(14);
+            let k = ctx.rng.below(24);
             let (v, cls) = c05_symbol(k, &mut p, &mut rr);
             // nested control flow as an operand
             if ctx.rng.chance(1, 5) {
                 let inner_op = *ctx.rng.pick(&["if", "and", "or", "?:"]);
-                let (v2, _) = c05_symbol(ctx.rng.below(14), &mut p, &mut rr);
-                let (v3, _) = c05_symbol(ctx.rng.below(14), &mut p, &mut rr);
+                let (v2, _) = c05_symbol(ctx.rng.below(24), &mut p, &mut rr);
+                let (v3, _) = c05_symbol(ctx.rng.below(24), &mut p, &mut rr);
                 items.push((json!({ inner_op: [v, v2, v3] }), "probe-nested"));
             } else if ctx.rng.chance(1, 8) {
                 items.push((p.wrap(json!(ctx.rng.chance(1, 2))), "probe-wrapped"));
@@ -375,7 +385,7 @@ fn c14_case(ctx: &mut Ctx, coll: &Value, pred: &Value, data: &Value, cls: &str) 
 fn c14_core(ctx: &mut Ctx) {
     let mut p = Probes { n: 0 };
     let data = json!({"a": 1, "z": 0, "items": [1, 2, 0], "s": "aé日😀", "empty": [], "str_empty": "", "n": null, "objs": [{"v": 1}, {"v": 0}], "ops": [{"log": "LEAK-el"}, {"var": "a"}], "t": true});
-    let preds: Vec<Value> = vec![var(""), json!({"!!": [var("")]}), json!({">": [var(""), 0]}), json!({"==": [var(""), "é"]}), json!({"in": [var(""), "aé"]}), var("v"), var("a"), json!(true), json!(false), json!({"log": var("")}), json!({"===": [var(""), 2]}), json!({"/": [1]}), json!([]), json!("0")];
+    let preds: Vec<Value> = vec![var("0"), json!({"===": [var("0"), 1]}), json!({"==": []}), json!({"var": [1, 2, 3]}), var("0.0"), var(""), json!({"!!": [var("")]}), json!({">": [var(""), 0]}), json!({"==": [var(""), "é"]}), json!({"in": [var(""), "aé"]}), var("v"), var("a"), json!(true), json!(false), json!({"log": var("")}), json!({"===": [var(""), 2]}), json!({"/": [1]}), json!([]), json!("0")];
     let mut colls: Vec<(Value, &'static str)> = vec![
         (json!([]), "empty-literal"),
         (json!(null), "null-literal"),
@@ -404,6 +414,12 @@ fn c14_core(ctx: &mut Ctx) {
         (json!({"a": 1, "b": 2}), "bad-object"),
         (var(""), "bad-computed"),
     ];
+    // elements of a literal collection that are themselves array literals are plain values:
+    // nothing inside them is evaluated (only the elements written as expressions are)
+    colls.push((json!([[{"var": "a"}], [{"log": "LEAK-nested"}]]), "literal-with-array-literal-elements"));
+    colls.push((json!([[[{"/": [1]}]], [1, {"var": [1, 2, 3]}]]), "literal-with-array-literal-elements"));
+    colls.push((json!([[{"var": "a"}, 7], {"var": "items"}, [[{"==": []}]]]), "literal-with-array-literal-elements"));
+    colls.push((json!([{"k": {"var": "a"}, "j": 1}, [{"k": {"log": "LEAK-obj"}, "j": 2}]]), "literal-with-array-literal-elements"));
     // probes and poisons after the deciding position (literal arrays of expressions)
     for k in 0..4 {
         let mut els: Vec<Value> = Vec::new();
@@ -661,6 +677,7 @@ fn c04_core(ctx: &mut Ctx) {
 
 pub fn c04(ctx: &mut Ctx) {
     c04_core(ctx);
+    c04_more(ctx);
     crate::props_sizes::c04(ctx);
 }
 
@@ -677,4 +694,55 @@ pub fn c13(ctx: &mut Ctx) {
 pub fn c14(ctx: &mut Ctx) {
     c14_core(ctx);
     crate::props_sizes::c14(ctx);
+}
+
+/// Further channels (C04): every spelling of the whole-data reference and every lazy operator
+/// that can *select* a data value, used as the collection / operand of every consumer.
+pub fn c04_more(ctx: &mut Ctx) {
+    let markers: Vec<Value> = vec![json!({"log": "LEAK-w"}), json!({"var": "secret"}), json!({"/": [1]}), json!({"==": []}), json!({"cat": ["LEAK-", "c"]}), json!({"if": [true, {"log": "LEAK-x"}]})];
+    let whole: Vec<Value> = vec![json!({"var": []}), json!({"var": ""}), json!({"var": null}), json!({"var": [""]}), json!({"var": [null]}), json!({"var": [null, 1]}), json!({"var": ["", 1]})];
+    let mut idx = 0u64;
+    for m in markers.iter() {
+        // the data itself is the collection: top level, and as the element of an outer map
+        let arr = json!([m, 1, m, "guest"]);
+        let nested = json!({"rows": [arr, [m]], "items": arr, "secret": 424242, "empty": [], "f": 0});
+        for w in whole.iter() {
+            for q in ["all", "some", "none"] {
+                for pred in [json!({"!!": [{"var": ""}]}), json!({"===": [{"var": ""}, "LEAK-c"]}), json!(true), json!({"var": ""})] {
+                    idx += 1;
+                    if !ctx.mine(idx) {
+                        continue;
+                    }
+                    c04_case(ctx, &json!({ q: [w, pred] }), &arr, "whole-data-spelling");
+                    c04_case(ctx, &json!({"map": [{"var": "rows"}, { q: [w, pred] }]}), &nested, "whole-data-spelling-in-scope");
+                }
+            }
+            idx += 1;
+            if ctx.mine(idx) {
+                for rule in [json!({"map": [w, {"var": ""}]}), json!({"filter": [w, true]}), json!({"reduce": [w, {"var": "current"}, 0]}), json!({"merge": [w, w]}), json!({"cat": [w]}), json!({"in": [1, w]}), json!({"==": [w, w]}), json!({"===": [w, w]}), json!({"!!": [w]}), json!({"if": [w, w, 0]}), json!({"or": [w, 1]}), json!({"var": ["nope", w]}), json!({"missing": w}), json!({"max": [w]})] {
+                    c04_case(ctx, &rule, &arr, "whole-data-spelling");
+                }
+            }
+        }
+        // lazy operators that select a data value, as collections of every consumer
+        let selectors: Vec<Value> = vec![
+            json!({"if": [true, {"var": "items"}, []]}), json!({"if": [{"var": "f"}, [], {"var": "items"}]}), json!({"?:": [false, [1], {"var": "items"}]}), json!({"if": [{"var": "items"}]}),
+            json!({"or": [{"var": "empty"}, {"var": "items"}]}), json!({"or": [{"var": "items"}, []]}), json!({"and": [1, {"var": "items"}]}), json!({"and": [{"var": "items"}, {"var": "items"}]}),
+            json!({"filter": [{"var": "items"}, true]}), json!({"map": [{"var": "items"}, {"var": ""}]}), json!({"reduce": [[1], {"var": "accumulator"}, {"var": "items"}]}), json!({"merge": [{"var": "items"}, []]}),
+            json!({"var": ["nope", {"var": "items"}]}), json!({"if": [true, {"if": [true, {"var": "items"}, [[1]]]}, [2]]}),
+        ];
+        for sel in selectors.iter() {
+            idx += 1;
+            if !ctx.mine(idx) {
+                continue;
+            }
+            for q in ["all", "some", "none", "map", "filter"] {
+                c04_case(ctx, &json!({ q: [sel, {"!!": [{"var": ""}]}] }), &nested, "selected-data-collection");
+                c04_case(ctx, &json!({ q: [sel, {"===": [{"var": ""}, 424242]}] }), &nested, "selected-data-collection");
+            }
+            c04_case(ctx, &json!({"reduce": [sel, {"merge": [{"var": "accumulator"}, [{"var": "current"}]]}, []]}), &nested, "selected-data-collection");
+            c04_case(ctx, &json!({"merge": [sel, sel]}), &nested, "selected-data-collection");
+            c04_case(ctx, &json!({"in": [{"var": "items.0"}, sel]}), &nested, "selected-data-collection");
+        }
+    }
 }
